@@ -369,7 +369,8 @@ def oob_spec(draw):
     held = draw(st.lists(st.sampled_from(tickers), min_size=1, max_size=nt, unique=True))
     raw = [draw(st.integers(1, 10)) for _ in held]
     invest = draw(st.sampled_from([1.0, 0.8, 0.5]))
-    w0 = {t: invest * r / float(sum(raw)) for t, r in zip(held, raw)}
+    # long/short books: a short leg has a negative target, and its deviation is relative to the size of that target
+    w0 = {t: invest * r / float(sum(raw)) * (-1 if draw(st.integers(0, 3)) == 0 else 1) for t, r in zip(held, raw)}
     tk = draw(st.sampled_from(["same", "same", "perturbed", "subset", "extra"]))
     targets = dict(w0)
     if tk == "perturbed":
@@ -423,7 +424,7 @@ def case_oob(ctx, spec):
     margin = 1e-9
     sec_oob = any(d > spec["tol"] + margin for d in devs.values())
     sec_in = all(d < spec["tol"] - margin for d in devs.values())
-    labs = ["cash" if cash_t is not None else "nocash"]
+    labs = ["cash" if cash_t is not None else "nocash"] + (["short_target"] if any(v < 0 for v in spec["targets"].values()) else [])
     if cash_t is None:
         if sec_oob and not got:
             raise Violation("a held target deviates by %s > tolerance %s but RunIfOutOfBounds is False" % (max(devs.values()), spec["tol"]), signature="oob:missed")
